@@ -108,9 +108,9 @@ pub fn op(f: &[&str]) -> String {
         "neb" => b2s(vh::need_expand_brace(&dec(f[1]))),
         "ng" => b2s(vh::needs_globbing(&dec(f[1]))),
         "sdd" => b2s(vh::should_do_dollar_command_extension(&dec(f[1]))),
-        "one" => {
+        "once" => {
             let a = apply_world(f[1]);
-            pidpfx(q(&vh::expand_one_env(&a.sh, &dec(f[2]))))
+            pidpfx(q(&vh::expand_env_once(&a.sh, &dec(f[2]))))
         }
         "env" => {
             let a = apply_world(f[1]);
@@ -169,12 +169,6 @@ pub fn op(f: &[&str]) -> String {
             let mut t = toks_of_field(f[3]);
             shell::do_expansion(&mut a.sh, &mut t);
             pidpfx(tokens_str(&t))
-        }
-        "tpl" => {
-            // the regex crate's replacement-template language, on the pattern the $(..) splice uses
-            let re = regex::Regex::new(r"(?P<head>[^\$]*)\$\(.+\)(?P<tail>.*)").unwrap();
-            let hay = format!("{}$(x){}", dec(f[1]), dec(f[2]));
-            q(&re.replace(&hay, dec(f[3]).as_str()))
         }
         _ => "?bad-case".to_string(),
     }
